@@ -17,16 +17,21 @@ LEVEL_TEXT = ("The page hierarchy of website.py is modelled in Lean over an abst
               "(pageScale_value, _native, _count_shown, _injective, _compose), observed on every page and on the stand-alone page. C15c: which entries of a "
               "directory are sub directories, the readme and recipes (enumerate_spec: all directories, the one file named readme.md / index.md in any letter "
               "case, every other file with suffix .md in any letter case, in listing order; enumerate_error_iff: refused exactly with two or more readme "
-              "files), compared with enumerate_recipe_directory on real directories with files, directories and symbolic links.")
+              "files), compared with enumerate_recipe_directory on real directories with files, directories and symbolic links. C15d: what the page for n shows - "
+              "page_for_n (the written numbers, in reading order, each times n / s), page_exact_value (a written whole number or fraction w becomes exactly "
+              "w n / s), page_float_value, native_page_shows_written (the page for n = s shows the numbers as written, no rescaling note), heading_count_shown; on "
+              "top of C03e's page_numbers_scaled; compared with real rendered pages (C03's page-values correspondence).")
 LEVEL_NOTE = ("Partial: files actually written (pathlib, open, copyfile) and Jinja templates are outside the model. Known finding: two recipes whose file names "
               "differ only in the extension's letter case map to one page. Trusted: Lean kernel; model as far as correspondence exercises it.")
-LEAN_MODULES = ["RecipeGrid.Props.C15", "RecipeGrid.Props.C15b", "RecipeGrid.Props.C15c"]
+LEAN_MODULES = ["RecipeGrid.Props.C15", "RecipeGrid.Props.C15b", "RecipeGrid.Props.C15c", "RecipeGrid.Props.C15d"]
 SOURCES = ["recipe_grid/static_site/website.py", "recipe_grid/static_site/recipe_directory.py", "recipe_grid/markdown.py"]
 RULE = c14.RULE + "; stated serving counts 1..5 including counts above M (error expected)"
 
 
 def correspondence(run):
     c14.correspondence(run)
+    from . import c03
+    c03.pagevalues_correspondence(run)
     scale_correspondence(run)
     enumerate_correspondence(run)
 
